@@ -253,7 +253,7 @@ func cmdCheck(args []string) int {
 	// retry non-proved once with a longer timeout (robustness against load)
 	for i := range results {
 		if results[i].Res.Status == "unknown" {
-			results[i].Res = results[i].Obl.solve(dir, timeout*2, seed+1)
+			results[i].Res = results[i].Obl.solve(dir, timeout*4, seed+1)
 		}
 	}
 	if os.Getenv("GOVC_SLOW") != "" {
